@@ -686,7 +686,7 @@ impl<'tcx> Cx<'tcx> {
                     if !matches!(t.kind(), ty::Uint(_) | ty::Int(_)) && tcx.generics_of(did).count() == 0 && did.is_local() && tcx.is_mir_available(did) {
                         // aggregate constants (e.g. a named Range): export the small body that builds them
                         let cbody = tcx.mir_for_ctfe(did);
-                        if cbody.basic_blocks.len() <= 4 {
+                        if cbody.basic_blocks.len() <= 4096 {
                             let env = TypingEnv::post_analysis(tcx, did);
                             let mut plocals = Vec::new();
                             for d in cbody.local_decls.iter() {
